@@ -1,6 +1,6 @@
 (* Corr/MemSizeCorr.v — correspondence evaluator for Model/MemSize.v and Model/MemGas.v (component MS): one successfully started instruction:
    [IN op; IL stack (top first, at most 7 words); IN memory length the instruction saw; IN memory length its successor in the frame saw;
-    IN cost reported to the tracer (constant + dynamic gas)]
+    IN cost reported to the tracer (constant + dynamic gas); IN 1 = Shanghai rules or later]
    (the interpreter reports a step to the tracer before it expands the memory for it).  The cost is compared for the instructions
    [step_cost] covers, from the bookkeeping state the invariant of Proofs/MemGas_proofs.v gives: lastGasCost = mem_fee (length / 32). *)
 From Verif Require Import Base.Bytes Model.Mem Model.MemSize Model.MemGas Corr.Items.
@@ -9,10 +9,11 @@ Fixpoint items_Ns (l : list item) : option (list N) :=
   match l with [] => Some [] | IN n :: t => match items_Ns t with Some r => Some (n :: r) | None => None end | _ => None end.
 Definition ms_check_items (c : list item) : option bool :=
   match c with
-  | [IN op; IL st; IN before; IN after; IN cost] =>
+  | [IN op; IL st; IN before; IN after; IN cost; IN sh] =>
     match items_Ns st with
     | Some s => Some ((match mem_after op s before with Some a => a =? after | None => false end) &&
-                      (match step_cost op s (before, mem_fee (before / 32)) with Some g => g =? cost | None => true end))
+                      (match (if (op =? 0xf0) || (op =? 0xf5) then create_cost (negb (sh =? 0)) op s (before, mem_fee (before / 32))
+                             else step_cost op s (before, mem_fee (before / 32))) with Some g => g =? cost | None => true end))
     | None => None
     end
   | _ => None
